@@ -254,8 +254,9 @@ class MPUChunk:
         return bytes_written, rr
 
     def maybe_write(self, write: PartsWriter, spill_sz: int) -> int:
-        # if not last section keep 'min_write_sz' and 1 partId around after flush
-        rhs_keep, parts_to_keep = (0, 0) if self.is_final else (write.min_write_sz, 1)
+        # if not last section keep 'min_write_sz' around after flush, and
+        # always keep 1 partId for the flush of whatever arrives later
+        rhs_keep, parts_to_keep = (0, 1) if self.is_final else (write.min_write_sz, 1)
         lhs_keep = 0 if self.started_write else self.lhs_keep
 
         if self.write_credits - 1 < parts_to_keep:
